@@ -482,6 +482,17 @@ void FileManager::generateGenericProperty(const std::string& _entity_t, const st
 template<class MeshT>
 void FileManager::writeStream(std::ostream &_ostream, const MeshT &_mesh) const
 {
+    if(_mesh.needs_garbage_collection()) {
+        // Entities marked as deleted are skipped by the iterators used below, while the
+        // entity counts and all stored indices still include them: the result would not
+        // describe this mesh (and usually cannot be read at all). Refuse, like ovmb_write does.
+        if (verbosity_level_ >= 1) {
+            std::cerr << "OVM File writing error: mesh has deleted entities, call collect_garbage() first." << std::endl;
+        }
+        _ostream.setstate(std::ios::failbit);
+        return;
+    }
+
     _ostream.imbue(std::locale::classic());
     // Write header
     _ostream << "OVM ASCII" << std::endl;
